@@ -138,11 +138,75 @@ def join_env(a, b):
         return a
     out = Env()
     for k in set(a) | set(b):
+        if isinstance(k, str) and k.startswith("\0src:"):
+            if a.get(k) == b.get(k):        # provenance survives a join only when both paths agree on it
+                out[k] = a[k]
+            continue
         out[k] = a.get(k, frozenset()) | b.get(k, frozenset())
     return out
 
 
+SRC = "\0src:"
+EQ = "\0="
+
+
+def const_fact(atom, key):
+    for (k, p, vals) in atom[2]:
+        if k == key + EQ:
+            return vals
+    return None
+
+
 class Analyzer:
+    @staticmethod
+    def _source_of(e, env):
+        """(dict variable, constant key, default constant or None) when e reads one key of a JSON dict held in a variable"""
+        if isinstance(e, ast.Call) and isinstance(e.func, ast.Attribute) and e.func.attr == "get" and isinstance(e.func.value, ast.Name) \
+                and e.func.value.id in env and e.args and isinstance(e.args[0], ast.Constant) and isinstance(e.args[0].value, str):
+            dflt = e.args[1].value if len(e.args) > 1 and isinstance(e.args[1], ast.Constant) else (None if len(e.args) == 1 else "\0?")
+            return (e.func.value.id, e.args[0].value, dflt)
+        if isinstance(e, ast.Subscript) and isinstance(e.value, ast.Name) and e.value.id in env and isinstance(e.slice, ast.Constant) \
+                and isinstance(e.slice.value, str):
+            return (e.value.id, e.slice.value, "\0none")
+        return None
+
+    def _refine_by_constants(self, name, consts, env):
+        """x (read from d[k]) compared with string constants: split d's atoms into those for which x may be one of `consts`
+        and those for which it may be something else"""
+        srcs = env.get(SRC + name)
+        if not srcs or len(srcs) != 1:
+            return None
+        (_tag, dname, key, dflt) = next(iter(srcs))
+        if dname not in env:
+            return None
+        consts = frozenset(consts)
+        tv, fv = set(), set()
+        for a in env[dname]:
+            if a[0] != "json" or "dict" not in a[1]:
+                tv.add(a)
+                fv.add(a)
+                continue
+            known = const_fact(a, key)
+            if known is not None:
+                if known & consts:
+                    tv.add(("json", a[1], frozenset({f for f in a[2] if f[0] != key + EQ} | {(key + EQ, "c", known & consts)})))
+                if known - consts:
+                    fv.add(("json", a[1], frozenset({f for f in a[2] if f[0] != key + EQ} | {(key + EQ, "c", known - consts)})))
+                continue
+            kf = keyfact(a, key)
+            tags = kf[1] if kf else ALLTAGS
+            if "str" in tags and not (isinstance(dflt, str) and dflt in consts and not dflt.startswith("\0")):
+                # equal to a constant that is not the default: the key is present and holds that string
+                t_atom = with_fact(a, key, "y", {"str"})
+                tv.add(("json", t_atom[1], frozenset(t_atom[2] | {(key + EQ, "c", consts)})))
+            elif "str" in tags:
+                tv.add(a)
+            fv.add(a)
+        et, ef = env.cp(), env.cp()
+        et[dname] = frozenset(tv)
+        ef[dname] = frozenset(fv)
+        return (et if tv else None), (ef if fv else None)
+
     def __init__(self, funcs, namedtuples, selfattrs=None, file_of=None):
         self.funcs = funcs                  # name -> FunctionDef
         self.namedtuples = namedtuples      # class name -> [fields]
@@ -204,6 +268,9 @@ class Analyzer:
                         out |= OTHER
                 elif a[0] == "json":
                     self.sink(e, "ATTR", "attribute .%s on a JSON value of types %s: %s" % (e.attr, sorted(a[1]), ast.unparse(e)))
+                    out |= OTHER
+                elif a == ("py", "none"):
+                    self.sink(e, "ATTR", "attribute .%s on a value that may be None: %s" % (e.attr, ast.unparse(e)))
                     out |= OTHER
                 else:
                     out |= OTHER
@@ -664,6 +731,19 @@ class Analyzer:
             if isinstance(t.ops[0], ast.NotIn):
                 return ef, et
             return et, ef
+        if isinstance(t, ast.Compare) and len(t.ops) == 1 and isinstance(t.left, ast.Name) and (SRC + t.left.id) in env:
+            op, right = t.ops[0], t.comparators[0]
+            consts = None
+            if isinstance(op, (ast.Eq, ast.NotEq)) and isinstance(right, ast.Constant) and isinstance(right.value, str):
+                consts = [right.value]
+            elif isinstance(op, (ast.In, ast.NotIn)) and isinstance(right, (ast.List, ast.Tuple, ast.Set)) and right.elts \
+                    and all(isinstance(x, ast.Constant) and isinstance(x.value, str) for x in right.elts):
+                consts = [x.value for x in right.elts]
+            if consts is not None:
+                self.ev(t, env)
+                res = self._refine_by_constants(t.left.id, consts, env)
+                if res is not None:
+                    return (res[1], res[0]) if isinstance(op, (ast.NotEq, ast.NotIn)) else res
         if isinstance(t, ast.Compare) and len(t.ops) == 1 and isinstance(t.ops[0], (ast.Is, ast.IsNot)) and isinstance(t.left, ast.Name) \
                 and t.left.id in env and isinstance(t.comparators[0], ast.Constant) and t.comparators[0].value is None:
             yes = frozenset(a for a in env[t.left.id] if a == ("py", "none") or (a[0] == "json" and "none" in a[1]) or a == ("py", "other"))
@@ -709,6 +789,13 @@ class Analyzer:
             for t in targets:
                 if isinstance(t, ast.Name):
                     env[t.id] = v
+                    # provenance: x = d.get("k"[, default]) / d["k"] remembers where x came from, so that a later `x == "lit"`
+                    # also says something about d (and about what a callee given d will read from it)
+                    for k_ in [k_ for k_ in env if isinstance(k_, str) and k_.startswith(SRC) and (k_ == SRC + t.id or any(a[1] == t.id for a in env[k_]))]:
+                        del env[k_]
+                    src = self._source_of(s.value, env)
+                    if src is not None and src[0] != t.id:
+                        env[SRC + t.id] = frozenset([("src",) + src])
                 elif isinstance(t, ast.Attribute) and isinstance(t.value, ast.Name) and t.value.id == "self":
                     self.selfattrs[t.attr] = v
                 elif isinstance(t, (ast.Tuple, ast.List)):
